@@ -152,7 +152,7 @@ PROPS = {
                       'guard_unguard_roots3': {'kind': 'bounded', 'bound': 'root list of exactly 3 entries drawn from 3 objects', 'fn': 'Guard::unguard / len / clear', 'tier': 'thorough'},
                   }, 'replay_test': 'verif_replay_gc_handles'}],
         'bounded_native': [{'unit': 'gc_histories', 'mount': 'src/gc.rs', 'mod': 'verif_replay_gc_histories', 'test': 'verif_oracle_gc_histories',
-                            'bound': 'every history of <= 8 operations (new/drop guard, alloc, link, unlink, guard, unguard, collect) over <= 2 guards and <= 3 objects with explicit collection, every history of <= 7 operations with a collection on every allocation, 60 random 700-operation histories (<= 40 guards, <= 600 objects, thresholds 0,1,2,3,5,7,100)',
+                            'bound': 'every history of <= 8 operations (new/drop guard, alloc, link, unlink, guard, unguard, collect) over <= 2 guards and <= 3 objects with explicit collection, every history of <= 7 operations over <= 3 guards, every history of <= 7 operations with a collection on every allocation, 60 random 700-operation histories (<= 40 guards, <= 600 objects, thresholds 0,1,2,3,5,7,100)',
                             'bound_thorough': 'histories of <= 9 / <= 8 operations, 400 random histories',
                             'env': {'VERIF_GC_DEPTH': '8', 'VERIF_GC_RANDOM': '60'}, 'env_thorough': {'VERIF_GC_DEPTH': '9', 'VERIF_GC_RANDOM': '400'},
                             'obligations': ['gc_histories/Heap::collect/ensures#exactly_the_reachable_objects_are_counted_live',
